@@ -138,7 +138,8 @@ BASEFLAGS = "-std=c++14 -msse4 -D%s -I%s/src -I%s/harness/cpp" % (GUARD, REPO, V
 def repo_hash(extra=""):
     h = hashlib.sha256()
     fs = sorted(glob.glob(os.path.join(REPO, "src", "*.h")) + glob.glob(os.path.join(REPO, "src", "*.cpp")) +
-                glob.glob(os.path.join(REPO, "src", "bin", "*.cpp")) + glob.glob(os.path.join(VERIF, "harness/cpp/*")))
+                glob.glob(os.path.join(REPO, "src", "bin", "*.cpp")) + glob.glob(os.path.join(VERIF, "harness/cpp/*")) +
+                glob.glob(os.path.join(VERIF, "harness/cppw/*")))
     for f in fs:
         h.update(f.encode()); h.update(open(f, "rb").read())
     h.update(extra.encode())
@@ -156,7 +157,7 @@ def build_impl(variant="san", tools=False):
     flags = BASEFLAGS + " " + VARIANTS[variant]
     key = variant + "-" + repo_hash(flags)
     d = os.path.join(CACHE, key)
-    res = {"dir": d, "drv": os.path.join(d, "drv")}
+    res = {"dir": d, "drv": os.path.join(d, "drv"), "drvw": os.path.join(d, "drvw")}
     tool_names = ["cdns_merge", "cdns_itemcount", "cdns_blocks", "cdns_items", "cdns_preamble"]
     for t in tool_names: res[t] = os.path.join(d, t)
     stamp = os.path.join(d, "OK" + ("_tools" if tools else ""))
@@ -169,6 +170,8 @@ def build_impl(variant="san", tools=False):
     for s in libsrc:
         jobs.append((s, os.path.join(d, "lib_" + os.path.basename(s)[:-4] + ".o"), ""))
     jobs.append((os.path.join(VERIF, "harness/cpp/drv.cpp"), os.path.join(d, "drv.o"), "-fno-access-control"))
+    if variant == "plain":
+        jobs.append((os.path.join(VERIF, "harness/cppw/drvw.cpp"), os.path.join(d, "drvw.o"), ""))
     if tools:
         for t in tool_names:
             jobs.append((os.path.join(REPO, "src", "bin", t + ".cpp"), os.path.join(d, "tool_" + t + ".o"), ""))
@@ -184,6 +187,8 @@ def build_impl(variant="san", tools=False):
     libobjs = " ".join(j[1] for j in jobs if os.path.basename(j[1]).startswith("lib_"))
     link = "g++ %s %%s %s -o %%s -lz -llzma -lpthread" % (VARIANTS[variant], libobjs)
     sh(link % (os.path.join(d, "drv.o"), res["drv"]), check=True, timeout=600)
+    if variant == "plain":
+        sh((link % (os.path.join(d, "drvw.o"), res["drvw"])) + " -ldl", check=True, timeout=600)
     if tools:
         for t in tool_names:
             sh(link % (os.path.join(d, "tool_" + t + ".o"), res[t]), check=True, timeout=600)
@@ -388,3 +393,44 @@ def summarize_cov(rep, cases, rule, diffs, fails, nontrivial=None):
     rep.cov["samples"] = [{"id": cases[i]["id"], "script": case_script(cases[i])[:12], "expect": (cases[i].get("expect") or [])[:12]} for i in idx if cases]
     rep.cov["correspondence_differences"] = len(diffs)
     rep.cov["oracle_failures"] = len(fails)
+
+
+# ---------------------------------------------------------------------------------------------- writer-stack driver runs
+def run_w(exe, lines, crash_at=None, timeout=300, keep_dir=False):
+    """one script through harness/cppw/drvw in a fresh private directory; returns (result lines, {relative name: bytes}, rc)"""
+    import tempfile
+    d = tempfile.mkdtemp(prefix="w.", dir=scratch_root())
+    script = "".join(l + "\n" for l in (["CRASHAT %d" % crash_at] if crash_at else []) + list(lines))
+    env = dict(os.environ); env["DRV_SCRATCH"] = d
+    try:
+        p = subprocess.run([exe], input=script, stdout=subprocess.PIPE, stderr=subprocess.PIPE, timeout=timeout, universal_newlines=True, errors="replace", env=env)
+        rc, out = p.returncode, p.stdout
+    except subprocess.TimeoutExpired:
+        rc, out = -9, "TIMEOUT"
+    files = {}
+    for fn in sorted(os.listdir(d)):
+        with open(os.path.join(d, fn), "rb") as f: files[fn] = f.read()
+    if not keep_dir: shutil.rmtree(d, ignore_errors=True)
+    ls = [l for l in out.split("\n") if l != ""]
+    if crash_at: ls = ls[1:]
+    return ls, files, rc
+
+def run_model_lines(mdl, lines, timeout=300):
+    rc, out, err = run_exec(mdl, "".join(l + "\n" for l in lines), timeout, model=True)
+    if rc != 0: raise CheckError("model driver failed: " + err[-1000:])
+    return [l for l in out.split("\n") if l != ""]
+
+def canon_trace(lines, compressed):
+    """coalesce adjacent writes to one path, drop zero-length writes, blank the sizes of compressed data"""
+    out = []
+    for l in lines:
+        if l.startswith("ev write "):
+            _, _, p, ab = l.split(" ", 3)
+            a = ab.split("/")[0]
+            if compressed: a = "?"
+            elif a == "0": continue
+            if out and out[-1][0] == "w" and out[-1][1] == p:
+                out[-1] = ("w", p, "?" if compressed else str(int(out[-1][2]) + int(a)))
+            else: out.append(("w", p, a))
+        elif l.startswith("ev "): out.append(("e", l[3:], ""))
+    return ["write %s %s" % (x[1], x[2]) if x[0] == "w" else x[1] for x in out]
